@@ -1095,6 +1095,25 @@ static inline std::ostream& embrace(std::ostream& os, bool old, const expression
         return expr.print(os, old);
 }
 
+/** Prints the type of a quantifier binder the way it is written in the source (binders are implicitly constant). */
+static std::ostream& print_binder_type(std::ostream& os, bool old, const type_t& type)
+{
+    switch (type.get_kind()) {
+    case CONSTANT: return print_binder_type(os, old, type.get(0));
+    case LABEL: return os << type.get_label(0);
+    case INT: return os << "int";
+    case BOOL: return os << "bool";
+    case RANGE:
+        if (type.get(0).get_kind() == INT) {
+            auto [lower, upper] = type.get_range();
+            lower.print(os << "int[", old) << ',';
+            return upper.print(os, old) << ']';
+        }
+        [[fallthrough]];
+    default: return os << type.declaration();
+    }
+}
+
 int get_precedence_or_default(const expression_t& expr)
 {
     try {
@@ -1473,17 +1492,20 @@ std::ostream& expression_t::print(std::ostream& os, bool old) const
         break;
 
     case FORALL:
-        os << "forall(" << get(0).get_symbol().get_name() << ':' << get(0).get_symbol().get_type().str() << ") ";
+        os << "forall (" << get(0).get_symbol().get_name() << " : ";
+        print_binder_type(os, old, get(0).get_symbol().get_type()) << ") ";
         get(1).print(os, old);
         break;
 
     case EXISTS:
-        os << "exists(" << get(0).get_symbol().get_name() << ':' << get(0).get_symbol().get_type().str() << ") ";
+        os << "exists (" << get(0).get_symbol().get_name() << " : ";
+        print_binder_type(os, old, get(0).get_symbol().get_type()) << ") ";
         get(1).print(os, old);
         break;
 
     case SUM:
-        os << "sum(" << get(0).get_symbol().get_name() << ':' << get(0).get_symbol().get_type().str() << ") ";
+        os << "sum (" << get(0).get_symbol().get_name() << " : ";
+        print_binder_type(os, old, get(0).get_symbol().get_type()) << ") ";
         get(1).print(os, old);
         break;
 
